@@ -63,6 +63,10 @@ SITES = {
                  '/2': {'links': ['/3']},
                  '/3': {'links': ['/4']},
                  '/4': {'links': []}}), ['http://a.test/']),
+    'fivestart': (S({'/s1': {'links': ['/m']}, '/s2': {'links': []}, '/s3': {'links': ['/s1']},
+                     '/s4': {'links': []}, '/s5': {'links': ['/m']}, '/m': {'links': []}}),
+                  ['http://a.test/s1', 'http://a.test/s2', 'http://a.test/s3',
+                   'http://a.test/s4', 'http://a.test/s5']),
     'twostart': (S({'/': {'links': ['/m']}, '/z': {'links': ['/m', '/']},
                     '/m': {'links': ['/z']}}),
                  ['http://a.test/', 'http://A.TEST:80/z', 'http://a.test/']),
@@ -99,9 +103,18 @@ def ref_opts(o):
     return d
 
 
+def manystart_site(n):
+    """n start URLs on hosts that do not resolve (each is skipped without a request) plus
+    one real page: more than one 1000-URL batch of start URLs."""
+    starts = ['http://u%04d.invalid/' % i for i in range(n)] + ['http://a.test/']
+    return S({'/': {'links': ['/a']}, '/a': {'links': []}}), starts
+
+
 def get_site(params):
     if params['site'].startswith('g'):
         return digraph_site(int(params['site'][1:]))
+    if params['site'].startswith('manystart'):
+        return manystart_site(int(params['site'][9:]))
     return SITES[params['site']]
 
 
@@ -161,6 +174,17 @@ def judge(site, starts, ro, conc, out):
     for u, r in rows.items():
         if r['status'] not in ('done', 'skipped'):
             return 'row left %s: %s' % (r['status'], u)
+    # rules that depend on the link record only (recursion switches, depth limits) are
+    # applied before a link is stored: no row may violate them at its recorded depth
+    for u, r in rows.items():
+        rec = dict(level=r['level'], inline_level=r.get('inline_level'), parent=r.get('parent'),
+                   root=r.get('root'), try_count=0)
+        ru = scope.RefURL(u) if '://' in u else None
+        if ru is not None:
+            for rule in (scope.rule_recursive, scope.rule_level):
+                if not rule(ru, rec, ro):
+                    return ('row stored beyond the recursion limits (%s): %s at level %s '
+                            'inline %s' % (rule.__name__, u, r['level'], r.get('inline_level')))
     exp_rows, exp_requests = crawlref.closure(site, starts, ro)
     actual = Counter(requrl(q) for q in out['requests'])
     expected = Counter(exp_requests)
